@@ -285,16 +285,19 @@ def check_case(ctx, case, mgen, mcalls, st, counter):
             ctx.violation(f"analyzer: implementation error {b.error}, model {('error %s' % merr) if merr else 'accepts'}",
                           {"methods": ms, "calls": []}, kind="correspondence")
         return
+    # a translation-validation failure is a broken tie, not yet a failing input: the behaviour part below (traced calls
+    # against the model's outcomes, and the independent oracle) still runs, so that a concrete failing call is found if there is one
+    tv_failed = False
     try:
         params, body = E.parse_entry(b)
     except E.Unparsed as e:
         ctx.violation(f"generated entry point is outside the mini-AST ({e}):\n{E.entry_source(b)}", {"methods": ms, "calls": []}, kind="correspondence")
-        return
+        tv_failed = True
     st.evaluations += 1
-    if [params, body] != [mgen[2], mgen[3]]:
+    if not tv_failed and [params, body] != [mgen[2], mgen[3]]:
         ctx.violation(f"translation validation: generated entry point differs from the model generator's output\nimpl  {json.dumps([params, body])}\nmodel {json.dumps([mgen[2], mgen[3]])}\n{E.entry_source(b)}",
                       {"methods": ms, "calls": []}, kind="correspondence")
-        return
+        tv_failed = True
     # the public signature of the dispatcher against the model's reading of the def statement
     import inspect
     pub = [[{inspect.Parameter.POSITIONAL_ONLY: 0, inspect.Parameter.POSITIONAL_OR_KEYWORD: 1, inspect.Parameter.KEYWORD_ONLY: 2}[p.kind],
@@ -302,8 +305,8 @@ def check_case(ctx, case, mgen, mcalls, st, counter):
     mod = [[k, E.dec_ident(x), d] for k, x, d in mgen[4][1:]] if mgen[4][0] == 1 else None
     if pub != mod:
         ctx.violation(f"parameter kinds of the generated def: CPython {pub}, model {mod}", {"methods": ms, "calls": []}, kind="correspondence")
-        return
-    st.tv_ok += 1
+        tv_failed = True
+    st.tv_ok += int(not tv_failed)
     # ---- (ii) behaviour
     strict = E.documented_strict(case)
     for ci, call in enumerate(case["calls"]):
@@ -332,6 +335,11 @@ def check_case(ctx, case, mgen, mcalls, st, counter):
             st.nontrivial.add(hash(json.dumps([ms, call["pos"], call["kw"]], sort_keys=True)))
         if diff is not None:
             ctx.violation("behaviour: " + diff, one_call_case(case, ci), kind="correspondence")
+            # the model does not predict this call any more: ask the independent oracle alone (no attribution to a known
+            # finding without the model's agreement)
+            fail0 = oracle(b, case, call, plain, strict)
+            if fail0 is not None and not (kf31 or kf03):
+                ctx.violation("property: " + fail0, one_call_case(case, ci))
             continue
         # the plain run must behave like the traced one
         if [plain["kind"], plain["ran"]] != [tr["kind"], tr["ran"]]:
@@ -371,7 +379,8 @@ def run_batch(ctx, cases, st, counter):
     mc = model.run_cases([E.model_case_calls(c, s) for c, s in zip(cases, selfs)], chunk=50)
     for c, g, r in zip(cases, mg, mc):
         check_case(ctx, c, g, r, st, counter)
-        if len(ctx.violations) > 20:
+        # keep exploring past broken ties until a few failing inputs (property oracle) are known
+        if sum(1 for v in ctx.violations if v["kind"] == "property") > 5 or len(ctx.violations) > 400:
             return False
     return True
 
